@@ -32,6 +32,7 @@ type flowAux struct {
 	Uploads       map[uint32]int    // stream id -> request body bytes sent (incl. padding)
 	UploadTags    map[uint32]string
 	ClientReset   map[uint32]bool
+	Overdeclared  int
 	ConnOverflow  bool
 	UploadOverrun uint32 // stream on which the client exceeds the server's window (0: none)
 	NStreams      int
@@ -172,6 +173,12 @@ func drawFlow(t *rapid.T, check string) *Case {
 			}
 			body := bodyBytes(tag, sz)
 			fields := [][2]string{{":method", "POST"}, {":scheme", "https"}, {":authority", "fc.verif.test"}, {":path", "/" + tag}, {"x-tag", tag}}
+			overdeclared := check == "C12" && sz >= 100 && drawBool(t, "overdeclared", 15)
+			if overdeclared {
+				// the body is longer than the declared content-length: the server resets the stream
+				// when the excess arrives and has to discard (and give credit for) what follows
+				fields = append(fields, [2]string{"content-length", fmt.Sprint(sz / 8)})
+			}
 			fs := HeadersFrames(id, enc.Block(fields), sz == 0, nil, -1, nil)
 			sent := 0
 			rest := body
@@ -191,6 +198,20 @@ func drawFlow(t *rapid.T, check string) *Case {
 				sent += len(f.Payload)
 				fs = append(fs, f)
 				rest = rest[k:]
+			}
+			if overdeclared {
+				aux.ClientReset[id] = true // not awaited, not compared: the server resets it
+				aux.Uploads[id] = sent
+				aux.UploadTags[id] = tag
+				aux.Streams[id] = tag
+				aux.Bodies[tag] = nil
+				aux.Overdeclared++
+				cut := rapid.IntRange(1, len(fs)).Draw(t, "upcut")
+				write(fs[:cut]...)
+				if cut < len(fs) {
+					write(fs[cut:]...)
+				}
+				continue
 			}
 			if sz > 0 && drawBool(t, "upabort", 30) {
 				// the client cancels the upload right behind its last DATA frame (same TLS write):
@@ -345,6 +366,7 @@ func drawFlow(t *rapid.T, check string) *Case {
 	p.Clients = []*ClientPlan{cp}
 	p.Fences = drawBool(t, "fences", 30)
 	p.BodyReadFences = check == "C12" && drawBool(t, "bodyreadfences", 30)
+	p.WriteFences = check == "C12" && drawBool(t, "writefences", 30)
 	p.Tape, p.Tail = drawTape(t, 128)
 	c := &Case{Plan: p, Metas: []*ClientMeta{{Proto: "h2"}}, Aux: aux}
 	var ev []string
